@@ -41,6 +41,17 @@ mod verif_probe_bbox_polygon_c19 {
                     if (cx - xc as f64).abs() > tol + 1e-4 * hw.max(hh) || (cy - yc as f64).abs() > tol + 1e-4 * hw.max(hh) { failures.push(format!("{}: bbox_polygon.centre: centroid ({}, {})", ctx, cx, cy)); }
                     for p in q { let r = ((p.0 - xc as f64).powi(2) + (p.1 - yc as f64).powi(2)).sqrt(); if (r - b.get_radius() as f64).abs() > 1e-4 * (b.get_radius() as f64) + tol { failures.push(format!("{}: bbox_polygon.bounding_radius: vertex at distance {} but get_radius() {}", ctx, r, b.get_radius())); break; } }
                     if ang.is_none() || ang == Some(0.0) { polys.push(q.to_vec()); }
+                    // the polygon regenerated after the box was edited in place is the polygon of the edited box
+                    if let Some(a0) = ang {
+                        let mut e = Universal2DBox::new(xc + 3.0, yc - 2.0, Some(a0 + 0.7), asp * 2.0, h * 0.5);
+                        e.gen_vertices();
+                        e.xc = xc; e.yc = yc; e.aspect = asp; e.height = h; e.rotate_mut(a0);
+                        e.gen_vertices();
+                        match e.get_cached_vertices() {
+                            None => failures.push(format!("{}: bbox_polygon.regenerated_polygon_follows_the_box: no cached polygon after gen_vertices()", ctx)),
+                            Some(cp) => { let c0 = cp.exterior().0[0]; if (c0.x - v[0].0).abs() > tol || (c0.y - v[0].1).abs() > tol { failures.push(format!("{}: bbox_polygon.regenerated_polygon_follows_the_box: gen_vertices() after an in-place edit kept a polygon starting at ({}, {}), the box's polygon starts at ({}, {})", ctx, c0.x, c0.y, v[0].0, v[0].1)); } }
+                        }
+                    }
                     if h < 1.0 && xc.abs() >= 1.0e3 { nontrivial += 1; }
                 }
                 if polys.len() == 2 && polys[0].iter().zip(polys[1].iter()).any(|(a, b)| (a.0 - b.0).abs() > 2.4e-7 * (a.0.abs() + h as f64) + 1e-12 || (a.1 - b.1).abs() > 2.4e-7 * (a.1.abs() + h as f64) + 1e-12) {
